@@ -178,7 +178,7 @@ struct Run : ContBase {
         c.op("qvector(max=%zu, objsize=%zu, %s)", cap, objsize, policy == 0 ? "EXACT" : policy == 1 ? "LINEAR" : "DOUBLE");
         int maxops = c.tier ? 2000 : 400, ops = 0;
         while (!s.exhausted() && ops++ < maxops) {
-            int o = (int)s.pick({30, 10, 8, 20, 4, 1, 3, 3, 3, 1});
+            int o = (int)s.pick({30, 10, 8, 20, 4, 1, 3, 3, 3, 1, 2});
             const char *what = "op";
             switch (o) {
                 case 0: do_add(); what = "add"; break;
@@ -190,6 +190,15 @@ struct Run : ContBase {
                 case 6: do_toarray(); what = "toarray"; break;
                 case 7: qvector_reverse(v); c.op("reverse() n=%zu", m.size()); std::reverse(m.begin(), m.end()); what = "reverse"; break;
                 case 8: do_walk(); what = "walk"; break;
+                case 10: {   // adds documented as refused (EINVAL): NULL data at any position
+                    int kind = (int)s.range(0, 2); int idx = m.empty() ? 0 : (int)s.range(0, (long)m.size());
+                    errno = poison;
+                    bool ok = kind == 0 ? qvector_addfirst(v, nullptr) : kind == 1 ? qvector_addlast(v, nullptr) : qvector_addat(v, idx, nullptr);
+                    int e = errno;
+                    c.op("refused call %s(NULL data) n=%zu", kind == 0 ? "addfirst" : kind == 1 ? "addlast" : "addat", m.size());
+                    if (ok) c.fail(FUNC, "vector:invalid-accepted", "add with NULL data succeeded, documented EINVAL");
+                    if (e != EINVAL) c.fail(FUNC, "vector:invalid-errno", "add with NULL data: errno=%d, documented EINVAL", e);
+                    what = "refused call"; break; }
                 default: { if (!devnull) devnull = fopen("/dev/null", "w"); bool ok = qvector_debug(v, devnull); c.op("debug()"); if (!ok) c.fail(FUNC, "vector:debug", "debug() returned false"); what = "debug"; }
             }
             compare_all(what, (ops & 7) == 0);
